@@ -91,6 +91,16 @@ MUTATIONS = [
     ('fetch-wake-returns-table-memo', 'Verify', 'src/function/fetch.rs',
      "                let _ = blocked_on.block_on(zalsa);\n                return None;",
      "                let _ = blocked_on.block_on(zalsa);\n                return self.get_memo_from_table_for(zalsa, id, memo_ingredient_index);"),
+    # reverts of the two fixes b4c96f4 / 35f4330
+    ('mca-verified-provisional-by-changed-at', 'Verify', 'src/function/maybe_changed_after.rs',
+     "old_header.revisions.changed_at > revision || old_header.may_be_provisional();",
+     "old_header.revisions.changed_at > revision;"),
+    ('backdate-participant-not-monotone', 'Verify', 'src/function/backdate.rs',
+     r"re:\} else if old_memo\.header\.was_cycle_participant\(\).*?revisions\.changed_at = old_memo\.header\.revisions\.changed_at;\s*\}",
+     "}"),
+    ('backdate-everything-monotone', 'Verify', 'src/function/backdate.rs',
+     "} else if old_memo.header.was_cycle_participant()\n            && old_memo.header.revisions.changed_at > revisions.changed_at",
+     "} else if old_memo.header.revisions.changed_at > revisions.changed_at"),
 ]
 
 
@@ -184,9 +194,13 @@ def main():
         head_sources(os.path.join(work, 'repo'))
         p = os.path.join(work, 'repo', path)
         s = open(p).read()
-        if s.count(old) != 1:
-            rows.append((mid, 'MUTATION DOES NOT APPLY (%d matches)' % s.count(old))); continue
-        open(p, 'w').write(s.replace(old, new))
+        if old.startswith('re:'):
+            s2, k = re.subn(old[3:], lambda _m: new, s, flags=re.S)
+        else:
+            s2, k = s.replace(old, new), s.count(old)
+        if k != 1:
+            rows.append((mid, 'MUTATION DOES NOT APPLY (%d matches)' % k)); continue
+        open(p, 'w').write(s2)
         rc, out = sh(gen + ['--repo', os.path.join(work, 'repo'), '--out', os.path.join(work, 'gen'), 'Logic' + fam])
         if rc != 0:
             rows.append((mid, out.strip())); continue
